@@ -38,6 +38,8 @@ Toolchain gap found here (not guppylang behaviour; the HUGR is new_array -> pop_
 to_array): selene 0.4.3 reads a whole array that went through `pop_left` from the wrong offset
 (`a, *r = xs; result("r", r)` / `r.copy()` report garbage, `r[k]` and `for` are right).  A probe
 records this in notes; star remainders are therefore read by index / `for` / `measure_array` only.
+Second gap: `result(tag, <array of length 0>)` corrupts selene's result stream ("Expected tag as the
+first entry in a stream record"); for length 0 the scripts report `len(..)` instead.
 
 Finding on the unchanged tree (bucket `compile.crash.IndexError@stmt_checker.py:_check_unpack_assign`,
 class "starred unpacking of a length-0 array or sized iterable", re-open with C19_EXCLUDE=none): see
@@ -176,6 +178,16 @@ class Interp:
     def live(self):
         return self.panic_at is None
 
+    def result_array(self, tag, var, vals, ind=1):
+        """whole-array result of the array variable `var`; selene 0.4.3 corrupts its result stream on a
+        zero-length array result (toolchain gap), so for length 0 the length is reported instead"""
+        if len(vals) == 0:
+            self.line(f'result("len0", len({var}))', ind)
+            self.emit("len0", 0)
+        else:
+            self.line(f'result("{tag}", {var})', ind)
+            self.emit(tag, list(vals))
+
     def dump_index(self, var, vals, kind=None):
         for k, v in enumerate(vals):
             self.report(f"{var}[{k}]", v, kind=kind)
@@ -306,8 +318,7 @@ class Interp:
                 self._ev(e)
             self.labels.add("for")
         else:  # whole-array result (int only)
-            self.line(f'result("arr", {v})')
-            self.emit("arr", list(vals))
+            self.result_array("arr", v, vals)
 
     def _ev(self, e, kind=None):
         kind = kind or self.kind
@@ -366,8 +377,9 @@ class Interp:
             rep1(nm, val)
         if star:
             if qubit and how == "measure_array":
-                self.line(f'result("mb", measure_array({r}))')
-                self.emit("mb", list(mid))
+                b_ = self.fresh("bs")
+                self.line(f"{b_} = measure_array({r})")
+                self.result_array("mb", b_, mid)
             elif how == "index" and not qubit:
                 self.line(f'result("len", len({r}))')
                 self.emit("len", len(mid))
@@ -440,15 +452,14 @@ class Interp:
         self.labels.add("comprehension")
         if self.kind == "qubit":
             self.line("bs = array(measure(q) for q in qs)")
-            self.line('result("mb", bs)')
-            self.emit("mb", list(self.m[var]))
+            self.result_array("mb", "bs", self.m[var])
         else:
             self.line(f"zs = array(e for e in {var})")
             self.dump_index("zs", self.m[var])
 
     def fin_measure_array(self, var):
-        self.line('result("mb", measure_array(qs))')
-        self.emit("mb", list(self.m[var]))
+        self.line("bs = measure_array(qs)")
+        self.result_array("mb", "bs", self.m[var])
 
     def fin_unpack(self, var, left, star, right, how):
         self._unpack(var, self.m[var], left, star, right, how, qubit=self.kind == "qubit")
@@ -530,7 +541,7 @@ def judge(script, it, seg, panicked, message):
         what = script["ops"][it.panic_at][0]
         if seg == exp:
             if not panicked:
-                return (f"{kind}.{what}.no_panic.{it.why}",
+                return (f"{what}.no_panic.{it.why}",
                         f"operation #{it.panic_at} {script['ops'][it.panic_at]} must panic ({it.why}) but the program "
                         f"ended without a panic after {seg[-3:]}\n{src}\n{call}")
             if not message.strip():
@@ -542,7 +553,7 @@ def judge(script, it, seg, panicked, message):
         k += 1
     if it.panic_at is not None and k == len(exp):
         what = script["ops"][it.panic_at][0]
-        return (f"{kind}.{what}.no_panic.{it.why}",
+        return (f"{what}.no_panic.{it.why}",
                 f"operation #{it.panic_at} ({script['ops'][it.panic_at]}) must panic ({it.why}); instead the program went on: "
                 f"{seg[k:k + 6]}" + (f" and panicked later: {message}" if panicked else " and finished") +
                 f"\n{src}\n{call}")
@@ -571,7 +582,8 @@ def run_scripts(scripts):
     if out.kind in ("crash", "invalid"):
         b = ("compile.crash." + runner.crash_bucket(out.exc)) if out.kind == "crash" else "compile.invalid_hugr"
         if len(scripts) == 1:
-            return [(b, f"{out.message[-1200:]}\n" + "\n".join(its[0].lines))], "ok"
+            msg = out.message[-1200:] if out.kind == "crash" else out.message[:1200]
+            return [(b, f"{msg}\n" + "\n".join(its[0].lines))], "ok"
         return ["unreached"] * len(scripts), "ok"   # judged one by one by the caller
     segs = split(out.stream)
     last = max(segs) if segs else None
@@ -882,7 +894,7 @@ def strategies():
 
     clean = script("clean")
     bad = st.sampled_from(["neg", "neg", "high", "high", "double", "double", "any"]).flatmap(script)
-    mixed = st.sampled_from(["clean"] * 9 + ["neg", "neg", "high", "high", "double", "any"]).flatmap(script)
+    mixed = st.sampled_from(["clean"] * 10 + ["neg", "neg", "high", "high", "double", "double", "double", "any"]).flatmap(script)
     return clean, bad, mixed
 
 
@@ -1024,6 +1036,11 @@ def worker(ctx):
     if pending_bad and not ctx.out_of_time(0.9):
         eval_select(list(pending_bad))
         del pending_bad[:]
+
+    n_unsup = sum(v for k, v in ctx.unsupported.items() if k.startswith("selene could not"))
+    if n_unsup > 0.1 * max(1, ctx.evaluations + n_unsup):
+        ctx.harness_error(f"{n_unsup} scripts could not be built/run by selene ({ctx.evaluations} judged): the generator "
+                          "produces a shape the toolchain cannot execute")
 
     # minimise every new bucket: drop operations one at a time while the bucket stays
     for bucket, s0 in list(first_seen.items()):
